@@ -141,9 +141,14 @@ structure ChanSt where
   hcur : Info
   hnext : Option Info
   ccur : Info
+  /-- `next_counterparty_commit_num` / `next_counterparty_revoke_num` (the part of the commitment-number
+      protocol that decides whether a counterparty signing request is a legal *new* one or a legal *retry*) -/
+  cpNum : Nat
+  cpRev : Nat
 deriving DecidableEq, Repr
 
-def ChanSt.init : ChanSt := ⟨Info.empty, none, Info.empty⟩
+/-- a channel right after both initial commitments (number 0, no HTLCs) were exchanged -/
+def ChanSt.init : ChanSt := ⟨Info.empty, none, Info.empty, 1, 0⟩
 
 /-- what `persister.update_node` last wrote -/
 structure Disk where
@@ -233,17 +238,27 @@ def applyPayments (payments : Hash → Option Payment) (c : Chan) (hEff cEff hCu
 
 def Node.setChan (n : Node) (c : Chan) (st : ChanSt) : Node := { n with chans := upd n.chans c st }
 
-/-- `sign_counterparty_commitment_tx_phase2`.  `retry = true`: the commitment number is the current
-    one and the info must be unchanged (policy-commitment-retry-same); the payments are validated and
-    applied again, the stored info is not replaced. -/
+/-- `sign_counterparty_commitment_tx_phase2`.  `retry = false`: commitment number `cpNum` (legal iff the
+    predecessor of the current one is revoked: `cpNum = cpRev + 1`).  `retry = true`: the number is the
+    current one, `cpNum - 1`; the info must be unchanged (policy-commitment-retry-same) and
+    `set_next_counterparty_commit_num` refuses it once the predecessor has been revoked; the payments are
+    validated and applied again, the stored info is not replaced. -/
 def Node.cpSign (n : Node) (c : Chan) (retry : Bool) (info : Info) : Node × VRes :=
   let st := n.chans c
   if retry && info != st.ccur then (n, .err) else
+  if !retry && st.cpNum != st.cpRev + 1 then (n, .err) else
   match validate n c st.hcur info with
   | .ok =>
+    if retry && !(st.cpNum == 1 || st.cpNum ≥ st.cpRev + 2) then (n, .err) else
     ({ n with payments := applyPayments n.payments c st.hcur info st.hcur st.ccur info,
-              chans := upd n.chans c { st with ccur := info } }, .ok)
+              chans := upd n.chans c { st with ccur := info, cpNum := if retry then st.cpNum else st.cpNum + 1 } }, .ok)
   | r => (n, r)
+
+/-- `validate_counterparty_revocation` of commitment `cpRev` with the right secret: legal iff that
+    commitment has a signed successor. No effect on the payments. -/
+def Node.cpRevoke (n : Node) (c : Chan) : Node × VRes :=
+  let st := n.chans c
+  if st.cpRev + 2 = st.cpNum then (n.setChan c { st with cpRev := st.cpRev + 1 }, .ok) else (n, .err)
 
 /-- `validate_holder_commitment_tx_phase2`: validate only; a new commitment is remembered as `hnext`. -/
 def Node.hValidate (n : Node) (c : Chan) (retry : Bool) (info : Info) : Node × VRes :=
@@ -321,16 +336,21 @@ def restoreAll (chans : Chan → ChanSt) : Nat → (Hash → Option Payment) →
   | k + 1, p => restoreChan chans (restoreAll chans k p) k
 
 /-- restart: `NodeState::restore` (invoices and preimages from the persisted entry, payments rebuilt
-    from the preimages) followed by `restore_payments` on every channel (the channel entries are
+    from the preimages), `Node::restore_node` (a fresh payment entry per invoice) followed by `restore_payments` on every channel (the channel entries are
     persisted by every accepted commitment request). -/
 def Node.restart (n : Node) : Node :=
-  let base : Hash → Option Payment := fun h => if n.disk.pre h then some { Payment.new with pre := true } else none
+  -- `restore_node`: `state.payments.insert(h, RoutedPayment::new())` for every invoice *overwrites* the
+  -- entry rebuilt from the persisted preimage
+  let base : Hash → Option Payment := fun h =>
+    if (n.disk.invoices h).isSome then some Payment.new
+    else if n.disk.pre h then some { Payment.new with pre := true } else none
   { n with invoices := n.disk.invoices, payments := restoreAll n.chans n.nch base }
 
 inductive Op
   | cpSign (c : Chan) (retry : Bool) (info : Info)
   | hValidate (c : Chan) (retry : Bool) (info : Info)
   | revoke (c : Chan)
+  | cpRevoke (c : Chan)
   | approve (h : Hash) (inv : Invoice)
   | fulfill (h : Hash)
   | heartbeat (now : Nat)
@@ -351,6 +371,8 @@ def Node.exec (n : Node) : Op → Option (Node × Bool)
       | (n', .ok) => some (n', true) | (_, .err) => some (n, false) | (_, .panic) => none
   | .revoke c => match n.revoke c with
       | (n', .ok) => some (n', true) | (_, .err) => some (n, false) | (_, .panic) => none
+  | .cpRevoke c => match n.cpRevoke c with
+      | (n', .ok) => some (n', true) | (_, _) => some (n, false)
   | .approve h inv => match n.approve h inv with
       | (n', .added) => some (n', true) | (_, .same) => some (n, true) | (_, .different) => some (n, false)
   | .fulfill h => some ((n.fulfill h).1, true)
